@@ -837,3 +837,53 @@ Proof.
   - exists (tq * (1 + eps_goal)). split; [|reflexivity].
     setoid_replace (tq * (1 + eps_goal) - tq) with (eps_goal * tq) by ring. rewrite Ee. apply Qle_refl.
 Qed.
+
+(* ====================================================================== *)
+(* 9. Verdict 0 on a fresh histogram: the tracked counters ARE the history's counters *)
+(* ====================================================================== *)
+Definition adds_of (ops : list hop) : list Q :=
+  flat_map (fun op => match op with OAdd x _ _ _ => [x] | _ => [] end) ops.
+
+Lemma final_state_lin mn mx : mn < mx -> forall ops h, (0 < length (h_bins h))%nat ->
+  ops_ok_exact (KLin mn mx) h ops -> final_state h ops = fold_left (lin_add mn mx) (adds_of ops) h.
+Proof.
+  intros Hr. induction ops as [|op ops IH]; intros h Hn H; [reflexivity|].
+  cbn [ops_ok_exact] in H. destruct H as [H1 H2]. cbn [final_state].
+  assert (Hn' : (0 < length (h_bins (next_state h op)))%nat) by (rewrite next_state_nbins; exact Hn).
+  rewrite (IH _ Hn' H2). destruct op as [x nch idx delta| | | |]; try reflexivity.
+  cbn [adds_of flat_map app fold_left]. f_equal.
+  cbn [op_ok_exact] in H1. destruct H1 as (_ & _ & s & CS & _ & Sp). cbn [next_state]. rewrite CS.
+  cbn [add_spec_exact] in Sp. apply lin_slot_spec_iff in Sp; try assumption. unfold lin_add. now rewrite Sp.
+Qed.
+Lemma final_state_log b m : (2 <= b)%Z -> (0 < m)%nat -> forall ops h,
+  ops_ok_exact (KLog b m) h ops -> final_state h ops = fold_left (log_add (inject_Z b) m) (adds_of ops) h.
+Proof.
+  intros Hb Hm. induction ops as [|op ops IH]; intros h H; [reflexivity|].
+  cbn [ops_ok_exact] in H. destruct H as [H1 H2]. cbn [final_state].
+  rewrite (IH _ H2). destruct op as [x nch idx delta| | | |]; try reflexivity.
+  cbn [adds_of flat_map app fold_left]. f_equal.
+  cbn [op_ok_exact] in H1. destruct H1 as (_ & _ & s & CS & _ & Sp). cbn [next_state]. rewrite CS.
+  cbn [add_spec_exact] in Sp. apply log_slot_spec_iff in Sp; try assumption; [|apply base_gt1; exact Hb].
+  unfold log_add. now rewrite Sp.
+Qed.
+
+(* a fresh LinearHist, verdict 0: after the recorded operations every counter holds exactly the
+   number of added values that the stated edges put there (with C14_counts_after_history_linear) *)
+Theorem exact_counts_lin mn mx nb ops s : mn < mx -> (0 < nb)%nat -> valid_slot nb s ->
+  ops_ok_exact (KLin mn mx) (h_empty nb) ops ->
+  slot_count (final_state (h_empty nb) ops) s = Some (count_slot (lin_slot mn mx nb) s (adds_of ops)).
+Proof.
+  intros Hr Hn V H. rewrite (final_state_lin mn mx Hr ops (h_empty nb)); [|rewrite h_empty_nbins; exact Hn|exact H].
+  exact (lin_run_counts mn mx nb (adds_of ops) s V).
+Qed.
+Theorem exact_counts_log b m nb ops s : (2 <= b)%Z -> (0 < m)%nat -> valid_slot nb s ->
+  ops_ok_exact (KLog b m) (h_empty nb) ops ->
+  slot_count (final_state (h_empty nb) ops) s = Some (count_slot (log_slot (inject_Z b) m nb) s (adds_of ops)).
+Proof.
+  intros Hb Hm V H. rewrite (final_state_log b m Hb Hm ops (h_empty nb) H).
+  exact (log_run_counts (inject_Z b) m nb (adds_of ops) s V).
+Qed.
+Lemma ops_ok_exact_firstn k : forall ops h n, ops_ok_exact k h ops -> ops_ok_exact k h (firstn n ops).
+Proof.
+  induction ops as [|o ops IH]; intros h [|n] H; cbn in *; auto. destruct H. split; auto.
+Qed.
